@@ -45,6 +45,12 @@ RULE = ("one case = one constrained read of a model built from generated raw par
 TRUSTED = ["torch.abs / angle / exp / clamp / mean / sum / sqrt / fft2(norm='ortho') / argsort(descending) semantics (modelled)",
            "numpy abs / vdot / fft2 as the independent oracle of the predicate"]
 ASSUMPTIONS = [
+    "every array input (raw object, FOV mask, probe stack, tomography volume, parameter assigned in the pipeline) is drawn over memory-layout "
+    "x dtype x container classes with unchanged logical values: C / Fortran order, swapped and permuted views, step-sliced views, negative "
+    "strides (numpy; torch.tensor rejects them with ValueError before the anchored code runs: counted, not a failure), numpy vs torch, "
+    "32/64-bit real/complex; scalar inputs (mean intensity, baseline factor, shrinkage, slice thickness) as python / numpy / 0-d array / "
+    "0-d tensor, weight / roi / sampling sequences as list / tuple / array / tensor; a torch probe stack keeps its own dtype, tolerances "
+    "follow the narrower of configuration and input precision",
     "raw parameters are finite (NaN/inf are outside the claim); magnitudes 1e-3..1e3 for objects, mode norms 0.1..10",
     "Gaussian/Butterworth smoothing off (quantifier); with identical_slices=True only slice identity (and, for complex objects, amplitude <= 1) is evaluated",
     "Gram-Schmidt inputs: pairwise correlation <= 0.99, condition number <= 200, mode intensities pairwise >= 2% apart "
@@ -153,6 +159,125 @@ def cgauss(rng, n):
 
 
 # --------------------------------------------------------------------------------------
+# (layout x dtype x container) classes of every array / scalar input: same logical values, different memory
+LAYOUTS = [("c", 3), ("f", 2), ("swap", 2), ("perm1", 2), ("perm2", 1), ("step", 1), ("step0", 1), ("neg", 1)]
+
+
+def gen_inp(rng, widths=(32, 64)):
+    layout = rng.weighted(LAYOUTS)
+    container = "np" if layout == "neg" else rng.choice(["np", "torch"])   # torch has no negative strides
+    return {"layout": layout, "container": container, "width": rng.choice(list(widths))}
+
+
+def eff_prec(prec, inp):
+    """precision the values must be representable in (and, for torch-container probes, the computation runs in)"""
+    return "f32" if prec == "f32" or (inp or {}).get("width", 64) == 32 else "f64"
+
+
+def with_layout(a, inp, prec):
+    """the array `a` as the input class `inp` describes it: C / Fortran order, swapped / permuted views, strided slices,
+    negative strides (numpy only), numpy or torch container, 32- or 64-bit real/complex dtype.  Logical values unchanged
+    (generators round to the narrower of configuration and input width)."""
+    import torch
+    a = np.asarray(a)
+    inp = inp or {}
+    width = inp.get("width", 32 if prec == "f32" else 64)
+    dt = (np.complex64 if width == 32 else np.complex128) if np.iscomplexobj(a) else (np.float32 if width == 32 else np.float64)
+    a = a.astype(dt)
+    layout, container = inp.get("layout", "c"), inp.get("container", "np")
+    nd = a.ndim
+    if layout in ("perm1", "perm2") and nd != 3:
+        layout = "swap"
+    if nd < 2 and layout in ("f", "swap"):
+        layout = "step"
+    ident = lambda x: x
+    if layout == "c" or nd == 0:
+        storage, view = a, ident
+    elif layout == "f":
+        perm = tuple(reversed(range(nd)))
+        storage, view = a.transpose(perm), (lambda x: x.permute(perm) if hasattr(x, "permute") else x.transpose(perm))
+    elif layout == "swap":
+        perm = tuple(list(range(nd - 2)) + [nd - 1, nd - 2])
+        storage, view = a.transpose(perm), (lambda x: x.permute(perm) if hasattr(x, "permute") else x.transpose(perm))
+    elif layout == "perm1":   # stored as (H, S, W)
+        storage, view = a.transpose(1, 0, 2), (lambda x: x.permute(1, 0, 2) if hasattr(x, "permute") else x.transpose(1, 0, 2))
+    elif layout == "perm2":   # stored as (H, W, S)
+        storage, view = a.transpose(1, 2, 0), (lambda x: x.permute(2, 0, 1) if hasattr(x, "permute") else x.transpose(2, 0, 1))
+    elif layout == "step":
+        big = np.zeros(a.shape[:-1] + (2 * a.shape[-1],), dtype=dt)
+        big[..., ::2] = a
+        storage, view = big, (lambda x: x[..., ::2])
+    elif layout == "step0":
+        big = np.zeros((2 * a.shape[0],) + a.shape[1:], dtype=dt)
+        big[::2] = a
+        storage, view = big, (lambda x: x[::2])
+    else:                     # "neg": negative strides along the last axis (numpy only)
+        storage, view, container = a[..., ::-1], (lambda x: x[..., ::-1]), "np"
+    storage = np.ascontiguousarray(storage)
+    if container == "torch":
+        return view(torch.from_numpy(storage))
+    return view(storage)
+
+
+def rejected_layout(ctx, stream, inp, e):
+    """torch refuses numpy arrays with negative strides (ValueError): such an input never reaches the anchored code"""
+    if isinstance(e, ValueError) and "negative" in str(e) and (inp or {}).get("layout") == "neg":
+        ctx.count()
+        ctx.dist[f"{stream}:input-rejected-by-torch:negative-strides"] += 1
+        return True
+    return False
+
+
+def inp_dist(ctx, stream, inp, what="raw"):
+    inp = inp or {}
+    ctx.dist[f"{stream}:{what}:layout={inp.get('layout', 'c')}"] += 1
+    ctx.dist[f"{stream}:{what}:container={inp.get('container', 'np')}:width={inp.get('width', 'cfg')}"] += 1
+
+
+def scalar_as(x, kind):
+    """a scalar input in one of the containers the library accepts"""
+    import torch
+    if kind == "int":
+        return int(x)
+    if kind == "np64":
+        return np.float64(x)
+    if kind == "np32":
+        return np.float32(x)
+    if kind == "np0d":
+        return np.array(float(x))
+    if kind == "np1":
+        return np.array([float(x)])
+    if kind == "t0d64":
+        return torch.tensor(float(x), dtype=torch.float64)
+    if kind == "t0d32":
+        return torch.tensor(float(x), dtype=torch.float32)
+    return float(x)
+
+
+def seq_as(xs, kind):
+    import torch
+    if xs is None:
+        return None
+    if kind == "tuple":
+        return tuple(xs)
+    if kind == "np64":
+        return np.array(xs, dtype=np.float64)
+    if kind == "np32":
+        return np.array(xs, dtype=np.float32)
+    if kind == "npstep":
+        big = np.zeros(2 * len(xs))
+        big[::2] = xs
+        return big[::2]
+    if kind == "npneg":
+        return np.array(list(xs)[::-1], dtype=np.float64)[::-1]
+    if kind == "t32":
+        return torch.tensor(xs, dtype=torch.float32)
+    if kind == "t64":
+        return torch.tensor(xs, dtype=torch.float64)
+    return list(xs)
+
+
+# --------------------------------------------------------------------------------------
 # generators
 def gen_mask(rng, S, H, W):
     kind = rng.weighted([("ones", 2), ("binary", 3), ("soft", 4), ("dyadic", 2)])
@@ -207,10 +332,15 @@ def gen_obj_case(rng, prec):
         "fix_potential_baseline": rng.chance(0.4),
         "fix_potential_baseline_factor": rng.choice([1.0, 1.0, 0.5, 2.0, round(rng.uniform(0.1, 1.5), 3)]),
     }
-    raw = rnd(raw, prec)
+    inp, minp = gen_inp(rng), gen_inp(rng)
+    raw = rnd(raw, eff_prec(prec, inp))
+    f = cons["fix_potential_baseline_factor"]
     case = {"stream": "object", "prec": prec, "type": t, "shape": [S, H, W], "route": route, "cons": cons,
+            "inp": inp, "minp": minp,
+            "fkind": rng.choice(["float", "np64", "np32", "int"] if f == int(f) else (["float", "np64", "np32"] if f in (0.5, 1.25) else ["float", "np64"])),
+            "thk": rng.choice(["float", "int", "list", "np"]),
             "raw": cx_to_list(raw) if t != "potential" else [float(x) for x in raw],
-            "mask": None if mask is None else {"shape": list(mask.shape), "v": [float(x) for x in rnd(mask, prec).ravel()]}}
+            "mask": None if mask is None else {"shape": list(mask.shape), "v": [float(x) for x in rnd(mask, eff_prec(prec, minp)).ravel()]}}
     return case
 
 
@@ -223,6 +353,7 @@ def hadamard(N):
 
 def gen_gs_case(rng, prec):
     n = rng.weighted([(1, 1), (2, 3), (3, 3), (4, 2), (5, 3)])
+    inp = gen_inp(rng)
     rej = 0
     while True:
         H = rng.randint(2, 6)
@@ -243,7 +374,7 @@ def gen_gs_case(rng, prec):
         vs = np.array(vs)
         norms = np.array([10.0 ** rng.uniform(-1, 1) for _ in range(n)])
         vs = vs * norms[:, None]
-        vs = rnd(vs, prec)
+        vs = rnd(vs, eff_prec(prec, inp))
         nn = np.linalg.norm(vs, axis=1)
         g = np.abs(vs.conj() @ vs.T) / np.outer(nn, nn)
         corr = float(np.max(g - np.eye(n))) if n > 1 else 0.0
@@ -255,7 +386,7 @@ def gen_gs_case(rng, prec):
             break
         rej += 1
     return {"stream": "gs", "prec": prec, "n": n, "roi": [H, W], "corr": round(corr, 4), "cond": round(cond, 2),
-            "setter": rng.chance(0.5), "rejected": rej, "modes": cx_to_list(vs)}
+            "setter": rng.chance(0.5), "rejected": rej, "inp": inp, "modes": cx_to_list(vs)}
 
 
 def gen_gs_exact_case(rng):
@@ -281,7 +412,8 @@ def gen_gs_exact_case(rng):
         Is = np.sort(I)
         if n == 1 or float(np.min(Is[1:] / Is[:-1])) >= 1.02:
             break
-    return {"stream": "gs_exact", "prec": "f64", "n": n, "roi": [H, W], "setter": rng.chance(0.5), "modes": cx_to_list(vs)}
+    return {"stream": "gs_exact", "prec": "f64", "n": n, "roi": [H, W], "setter": rng.chance(0.5), "inp": gen_inp(rng, widths=(64,)),
+            "modes": cx_to_list(vs)}
 
 
 def gen_weights_case(rng, prec):
@@ -303,8 +435,16 @@ def gen_weights_case(rng, prec):
         if n > 1:
             w[rng.randint(1, n - 1)] = 0.0
     M = 10.0 ** rng.uniform(-2, 6)
+    inp = gen_inp(rng)
+    mkind = rng.choice(["float", "float", "np64", "np32", "np0d", "np1", "t0d64", "t0d32", "int"])
+    if mkind == "int":
+        M = float(max(1, round(M)))
+    if mkind in ("np32", "t0d32"):
+        M = float(np.float32(M))
     case = {"stream": "weights", "prec": prec, "n": n, "roi": [H, W], "route": route, "wkind": wk, "w": w, "M": M,
-            "seed": rng.below(1 << 30)}
+            "seed": rng.below(1 << 30), "inp": inp, "mkind": mkind,
+            "wcont": rng.choice(["list", "tuple", "np64", "np32", "npstep", "npneg", "t32", "t64"]),
+            "roicont": rng.choice(["tuple", "list", "np"]), "recipcont": rng.choice(["np", "list", "tuple", "np32"])}
     if route == "from_params":
         case["roi"] = [rng.choice([8, 10, 12]), rng.choice([8, 10, 12])]
         case["params"] = {"energy": rng.choice([80e3, 200e3, 300e3]), "semiangle_cutoff": rng.choice([15.0, 20.0, 25.0]),
@@ -313,7 +453,7 @@ def gen_weights_case(rng, prec):
     else:
         scale = 10.0 ** rng.uniform(-2, 2)
         stack = np.array([cgauss(rng, H * W) * scale * 10.0 ** rng.uniform(-1, 1) for _ in range(n)])
-        case["stack"] = cx_to_list(rnd(stack, prec))
+        case["stack"] = cx_to_list(rnd(stack, eff_prec(prec, inp)))
     return case
 
 
@@ -323,8 +463,12 @@ def gen_tomo_case(rng):
     scale = 10.0 ** rng.uniform(-3, 3)
     raw = rnd(np.array([gauss(rng) * scale for _ in range(n)]), "f32")
     shr = rng.choice([None, None, 0.0, rnd(np.array(abs(gauss(rng)) * scale * 0.5), "f32").item()])
+    inp = gen_inp(rng, widths=(32,))
+    inp["container"] = "torch"          # the obj setter takes a tensor
+    if inp["layout"] == "neg":
+        inp["layout"] = "swap"
     return {"stream": "tomo", "prec": "f32", "shape": shp, "positivity": rng.chance(0.7), "shrinkage": shr,
-            "raw": [float(x) for x in raw]}
+            "inp": inp, "skind": rng.choice(["float", "np32", "np64"]), "raw": [float(x) for x in raw]}
 
 
 # --------------------------------------------------------------------------------------
@@ -342,11 +486,26 @@ def run_object(ctx, drv, case):
     cons = dict(case["cons"])
     raw = (cx_from_list(case["raw"], (S, H, W)) if t != "potential" else np.array(case["raw"], dtype=np.float64).reshape(S, H, W))
     mask = None if case["mask"] is None else np.array(case["mask"]["v"], dtype=np.float64).reshape(case["mask"]["shape"])
-    m = ObjectPixelated.from_array(raw, slice_thicknesses=(1.0 if S > 1 else None), obj_type=t)
+    thk = {"float": 1.0, "int": 1, "list": [1.0] * max(S - 1, 1), "np": np.ones(max(S - 1, 1))}[case.get("thk", "float")] if S > 1 else None
+    inp_dist(ctx, "object", case.get("inp"))
+    try:
+        m = ObjectPixelated.from_array(with_layout(raw, case.get("inp"), prec), slice_thicknesses=thk, obj_type=t)
+    except ValueError as e:
+        if rejected_layout(ctx, "object", case.get("inp"), e):
+            return
+        raise
     m._initialize_obj((S, H, W), (1.0, 1.0))
-    m.constraints = cons
+    icons = dict(cons)
+    icons["fix_potential_baseline_factor"] = scalar_as(cons["fix_potential_baseline_factor"], case.get("fkind", "float"))
+    m.constraints = icons
     if mask is not None:
-        m.mask = mask
+        inp_dist(ctx, "object", case.get("minp"), "mask")
+        try:
+            m.mask = with_layout(mask, case.get("minp"), prec)
+        except ValueError as e:
+            if rejected_layout(ctx, "object", case.get("minp"), e):
+                return
+            raise
     check_object(ctx, drv, case, m, raw, cons, case["route"], "object")
 
 
@@ -369,6 +528,20 @@ def check_object(ctx, drv, case, m, raw, cons, route, stream):
         o_twice = m.apply_hard_constraints(o.clone(), mask=mk).detach().clone()
     out = o.numpy()
     out2 = o_twice.numpy()
+    # the object really handed to the forward model: patches gathered by flat index (all pixels, one position)
+    if route == "obj":
+        with torch.no_grad():
+            fwd = m.forward(torch.arange(H * W).reshape(1, H, W)).detach().numpy().astype(np.complex128).reshape(S, H * W)
+        ref_f = out.astype(np.complex128).reshape(S, H * W) if t != "potential" else np.exp(1j * out.astype(np.float64).reshape(S, H * W))
+        if bool(cons["identical_slices"]) and S > 1 and not all(np.array_equal(fwd[0], fwd[k]) for k in range(S)):
+            ctx.pred_fail(f"{t}-slices-differ:forward", "identical_slices requested but the patches handed to the forward model differ "
+                          "between slices", small(case), float(np.max(np.abs(fwd - fwd[0]))), 0.0)
+        okf, df = close(fwd, ref_f, PTOL[prec])
+        if not okf:
+            ctx.disagree("object-forward", small(case), cx_to_list(ref_f), cx_to_list(fwd), f"forward() patches differ from .obj: {df:.3g}")
+        if t == "complex" and float(np.abs(fwd).max()) > 1.0 + PTOL[prec]:
+            ctx.pred_fail("complex-amp-gt-one:forward", "amplitude of the patches handed to the forward model exceeds one", small(case),
+                          float(np.abs(fwd).max()), "<= 1")
     mexp = None if mk is None else np.real(mk.detach().numpy()).astype(np.float64).reshape(S, H * W)
     fov = bool(cons["apply_fov_mask"]) and mexp is not None
     ident = bool(cons["identical_slices"]) and S > 1
@@ -456,8 +629,10 @@ def run_tomo(ctx, drv, case):
     shp = tuple(case["shape"])
     raw = np.array(case["raw"], dtype=np.float32).reshape(shp)
     m = ObjectVoxelwise(shp, "cpu")
-    m.hard_constraints = {"positivity": case["positivity"], "shrinkage": case["shrinkage"] if case["shrinkage"] is not None else False}
-    m.obj = torch.tensor(raw)
+    shr_in = scalar_as(case["shrinkage"], case.get("skind", "float")) if case["shrinkage"] is not None else False
+    m.hard_constraints = {"positivity": case["positivity"], "shrinkage": shr_in}
+    inp_dist(ctx, "tomo", case.get("inp"))
+    m.obj = with_layout(raw, case.get("inp") or {"container": "torch", "width": 32}, "f32") if case.get("inp") else torch.tensor(raw)
     impl = m.obj.detach().numpy().astype(np.float64).ravel()
     shr = case["shrinkage"]
     # python truthiness: `if self.hard_constraints["shrinkage"]` skips False and 0.0
@@ -479,16 +654,17 @@ def run_tomo(ctx, drv, case):
         ctx.pred_fail("tomo-negative", "tomography object has negative values under positivity", small(case), float(impl.min()), ">= 0")
 
 
-def make_probe(stack, prec, setter, **kw):
+def make_probe(stack, prec, setter, inp=None, **kw):
     import torch
     from quantem.diffractive_imaging.probe_models import ProbePixelated
     cd = torch.complex64 if prec == "f32" else torch.complex128
     npd = np.complex64 if prec == "f32" else np.complex128
+    x = with_layout(stack, inp, prec)     # numpy arrays are cast by from_array (dtype=cd); torch tensors keep their own dtype
     if setter:   # build from a placeholder, then drive the raw parameter through the public setter
         pm = ProbePixelated.from_array(np.ones(stack.shape, dtype=npd), dtype=cd, **kw)
-        pm.probe = stack.astype(npd)
+        pm.probe = x
     else:
-        pm = ProbePixelated.from_array(stack.astype(npd), dtype=cd, **kw)
+        pm = ProbePixelated.from_array(x, dtype=cd, **kw)
     return pm
 
 
@@ -520,10 +696,17 @@ def run_gs(ctx, drv, case):
     n = case["n"]
     H, W = case["roi"]
     vs = cx_from_list(case["modes"], (n, H, W))
-    pm = make_probe(vs, prec, case["setter"])
+    inp_dist(ctx, case["stream"], case.get("inp"))
+    try:
+        pm = make_probe(vs, prec, case["setter"], inp=case.get("inp"))
+    except ValueError as e:
+        if rejected_layout(ctx, case["stream"], case.get("inp"), e):
+            return
+        raise
     out = pm.probe.detach().numpy().astype(np.complex128).reshape(n, H * W)
     rep = drv.ask({"op": "gs", "modes": enc_cx2(vs.reshape(n, H * W))})
     exact = case["stream"] == "gs_exact"
+    prec = eff_prec(prec, case.get("inp"))      # a torch stack keeps its own dtype: tolerances follow the narrower precision
     ctx.count()
     ctx.dist[f"{case['stream']}:{prec}:n={n}"] += 1
     ctx.dist[f"{case['stream']}:pixels={'<=8' if H * W <= 8 else ('<=16' if H * W <= 16 else '>16')}"] += 1
@@ -571,7 +754,14 @@ def run_weights(ctx, drv, case):
     w = case["w"]
     route = case["route"]
     cd = torch.complex64 if prec == "f32" else torch.complex128
-    tol, ptol = TOL[prec], PTOL[prec]
+    inp = case.get("inp")
+    ep = eff_prec(prec, inp) if route != "from_params" else prec
+    tol, ptol = TOL[ep], PTOL[ep]
+    Min = scalar_as(M, case.get("mkind", "float"))
+    win = seq_as(w, case.get("wcont", "list"))
+    roi_in = {"tuple": (H, W), "list": [H, W], "np": np.array([H, W]), "npf": np.array([float(H), float(W)])}[case.get("roicont", "tuple")]
+    ctx.dist[f"weights:M={case.get('mkind', 'float')}"] += 1
+    ctx.dist[f"weights:wcontainer={case.get('wcont', 'list') if w is not None else 'None'}"] += 1
     ctx.count()
     ctx.dist[f"weights:{route}:{prec}"] += 1
     ctx.dist[f"weights:n={n}"] += 1
@@ -579,22 +769,32 @@ def run_weights(ctx, drv, case):
     ctx.mark(("weights", route, prec, n, case["wkind"]))
     ctx.sample({k: case[k] for k in case if k != "stack"})
     recip = case.get("recip", [0.05, 0.05])
+    recip_in = {"np": np.array(recip), "list": list(recip), "tuple": tuple(recip), "np32": np.array(recip, dtype=np.float32)}[case.get("recipcont", "np")]
     if route == "from_params":
-        pm = ProbePixelated.from_params(dict(case["params"]), num_probes=n, dtype=cd, rng=case["seed"], initial_probe_weights=w)
-        pm.set_initial_probe((H, W), np.array(recip), M)
+        pm = ProbePixelated.from_params(dict(case["params"]), num_probes=n, dtype=cd, rng=case["seed"], initial_probe_weights=win)
+        pm.set_initial_probe(roi_in, recip_in, Min)
         ip = pm.initial_probe.detach().numpy().astype(np.complex128)
         model_in = None
     else:
         stack = cx_from_list(case["stack"], (n, H, W))
-        pm = make_probe(stack, prec, False, rng=case["seed"], initial_probe_weights=w)
+        inp_dist(ctx, "weights", inp)
+        try:
+            pm = make_probe(stack, prec, False, inp=inp, rng=case["seed"], initial_probe_weights=win)
+        except ValueError as e:
+            if rejected_layout(ctx, "weights", inp, e):
+                return
+            raise
         if route == "apply_weights":
-            pm.mean_diffraction_intensity = M
+            pm.mean_diffraction_intensity = Min
             model_in = stack
-            ip = pm._apply_weights(torch.tensor(stack, dtype=cd)).detach().numpy().astype(np.complex128)
+            arg = with_layout(stack, inp, prec)
+            if isinstance(arg, torch.Tensor):
+                arg = arg.clone()          # _apply_weights works in place on a tensor argument
+            ip = pm._apply_weights(arg).detach().numpy().astype(np.complex128)
         else:
-            twin = make_probe(stack, prec, False, rng=case["seed"], initial_probe_weights=w)
+            twin = make_probe(stack, prec, False, inp=inp, rng=case["seed"], initial_probe_weights=seq_as(w, case.get("wcont", "list")))
             model_in = twin._apply_random_phase_shifts(twin.initial_probe.clone()).detach().numpy().astype(np.complex128)
-            pm.set_initial_probe((H, W), np.array(recip), M)
+            pm.set_initial_probe(roi_in, recip_in, Min)
             ip = pm.initial_probe.detach().numpy().astype(np.complex128)
             # the constrained probe handed to the forward model keeps the intensities (orthogonalisation on by default)
     wstored = pm.initial_probe_weights.detach().numpy().astype(np.float64)
@@ -647,7 +847,8 @@ def gen_pipeline_case(rng):
             "scan": [rng.randint(3, 6), rng.randint(3, 6)], "roi": rng.choice([[8, 8], [6, 8], [8, 6]]), "n": rng.randint(1, 3),
             "pad": rng.choice([[8, 8], [4, 4], [8, 12], [16, 16], [0, 0]]),
             "seed": rng.below(1000), "rng_seed": rng.below(1000), "rawseed": rng.below(1 << 30),
-            "fov": rng.chance(0.8), "positivity": rng.chance(0.7)}
+            "fov": rng.chance(0.8), "positivity": rng.chance(0.7),
+            "playout": rng.choice(["c", "f", "swap", "step"])}
 
 
 def run_pipeline(ctx, drv, case):
@@ -691,7 +892,8 @@ def run_pipeline(ctx, drv, case):
         raw = (mag * np.exp(1j * np.array([rng.uniform(-math.pi, math.pi) for _ in range(cnt)]))).reshape(S, H, W)
     raw = rnd(raw, "f32")
     with torch.no_grad():
-        om.params.data = torch.tensor(raw, dtype=om.params.dtype)
+        om.params.data = with_layout(raw, {"layout": case.get("playout", "c"), "container": "torch", "width": 32}, "f32").to(om.params.dtype)
+    ctx.dist[f"pipeline:param-layout={case.get('playout', 'c')}"] += 1
     cons = {"apply_fov_mask": bool(case["fov"]), "identical_slices": False, "positivity": bool(case["positivity"]),
             "fix_potential_baseline": False, "fix_potential_baseline_factor": 1.0}
     p.constraints = {"object": dict(cons)}      # the real Ptychography setter: one add_constraint per entry
@@ -749,10 +951,11 @@ def gen_cons_history_case(rng, prec):
     # make the seeded kind of history frequent: a property-relevant request that is not the last one
     if rng.chance(0.5):
         ops.insert(0, {"op": "add", "k": "identical_slices", "v": True})
-    raw = rnd(raw, prec)
-    return {"stream": "cons_history", "prec": prec, "type": t, "shape": [S, H, W], "ops": ops,
+    inp, minp = gen_inp(rng), gen_inp(rng)
+    raw = rnd(raw, eff_prec(prec, inp))
+    return {"stream": "cons_history", "prec": prec, "type": t, "shape": [S, H, W], "ops": ops, "inp": inp, "minp": minp,
             "raw": cx_to_list(raw) if t != "potential" else [float(x) for x in raw],
-            "mask": {"shape": list(mask.shape), "v": [float(x) for x in rnd(mask, prec).ravel()]}}
+            "mask": {"shape": list(mask.shape), "v": [float(x) for x in rnd(mask, eff_prec(prec, minp)).ravel()]}}
 
 
 def canon_val(v):
@@ -776,9 +979,15 @@ def run_cons_history(ctx, drv, case):
     set_prec(prec)
     raw = (cx_from_list(case["raw"], (S, H, W)) if t != "potential" else np.array(case["raw"], dtype=np.float64).reshape(S, H, W))
     mask = np.array(case["mask"]["v"], dtype=np.float64).reshape(case["mask"]["shape"])
-    om = ObjectPixelated.from_array(raw, slice_thicknesses=1.0, obj_type=t)
-    om._initialize_obj((S, H, W), (1.0, 1.0))
-    om.mask = mask
+    inp_dist(ctx, "cons_history", case.get("inp"))
+    try:
+        om = ObjectPixelated.from_array(with_layout(raw, case.get("inp"), prec), slice_thicknesses=1.0, obj_type=t)
+        om._initialize_obj((S, H, W), (1.0, 1.0))
+        om.mask = with_layout(mask, case.get("minp"), prec)
+    except ValueError as e:
+        if rejected_layout(ctx, "cons_history", case.get("inp"), e) or rejected_layout(ctx, "cons_history", case.get("minp"), e):
+            return
+        raise
     defaults = dict(ObjectPixelated.DEFAULT_CONSTRAINTS)
     allowed = list(defaults.keys())
     init_items = list(om.constraints.items())
@@ -879,9 +1088,11 @@ def gen_probe_history_case(rng, prec):
     else:
         w = [float(rng.randint(1, 9)) for _ in range(n)]
     stack = np.array([cgauss(rng, H * W) * 10.0 ** rng.uniform(-1, 1) for _ in range(n)])
+    inp = gen_inp(rng)
     return {"stream": "probe_history", "prec": prec, "n": n, "roi": [H, W], "wkind": wk, "w": w,
             "Ms": [10.0 ** rng.uniform(-1, 5) for _ in range(rng.randint(2, 4))], "seed": rng.below(1 << 30),
-            "read_back": rng.chance(0.5), "reset": rng.chance(0.5), "stack": cx_to_list(rnd(stack, prec))}
+            "read_back": rng.chance(0.5), "reset": rng.chance(0.5), "inp": inp, "wcont": rng.choice(["list", "tuple", "np64", "np32", "t32", "t64"]),
+            "mkinds": [rng.choice(["float", "np64", "np0d", "t0d64"]) for _ in range(4)], "stack": cx_to_list(rnd(stack, eff_prec(prec, inp)))}
 
 
 def probe_intensity_predicate(ctx, case, arr, M, wreq, label, wtol):
@@ -906,8 +1117,17 @@ def run_probe_history(ctx, drv, case):
     w = case["w"]
     cd = torch.complex64 if prec == "f32" else torch.complex128
     stack = cx_from_list(case["stack"], (n, H, W))
-    pm = make_probe(stack, prec, False, rng=case["seed"], initial_probe_weights=w)
-    twin = make_probe(stack, prec, False, rng=case["seed"], initial_probe_weights=w)
+    inp = case.get("inp")
+    inp_dist(ctx, "probe_history", inp)
+    try:
+        pm = make_probe(stack, prec, False, inp=inp, rng=case["seed"], initial_probe_weights=seq_as(w, case.get("wcont", "list")))
+        twin = make_probe(stack, prec, False, inp=inp, rng=case["seed"], initial_probe_weights=seq_as(w, case.get("wcont", "list")))
+    except ValueError as e:
+        if rejected_layout(ctx, "probe_history", inp, e):
+            return
+        raise
+    cd = pm.initial_probe.dtype           # a torch stack keeps its own dtype
+    prec = eff_prec(prec, inp)
     wreq = (np.array([1 - 0.02 * (n - 1)] + [0.02] * (n - 1)) if w is None else np.array(w, dtype=np.float64) / float(np.sum(w)))
     w0 = pm.initial_probe_weights.detach().clone().numpy().astype(np.float64)
     wtol = max(PTOL[prec], 2e-6)
@@ -920,7 +1140,7 @@ def run_probe_history(ctx, drv, case):
     ctx.sample({k: case[k] for k in case if k != "stack"})
     for i, M in enumerate(case["Ms"]):
         ramps = twin._apply_random_phase_shifts(torch.ones((n, H, W), dtype=cd)).detach().numpy().astype(np.complex128)
-        pm.set_initial_probe((H, W), recip, float(M))
+        pm.set_initial_probe((H, W), recip, scalar_as(M, (case.get("mkinds") or ["float"] * 4)[i % 4]))
         ip = pm.initial_probe.detach().numpy().astype(np.complex128)
         impl_stacks.append(ip)
         steps.append({"M": bits([M])[0], "ramps": [[enc_cx_row(r) for r in p] for p in ramps]})
